@@ -81,15 +81,15 @@ Definition sprintf_02d (n : N) : str :=
   let d := show_N n in
   if Nat.ltb (length d) 2 then 48 :: d else d.
 
-(* the replacement computed for text[last+1 : i] = raw *)
-Definition fmt_repl (raw : str) : str :=
-  let code0 := to_lower_ascii raw in
-  let cs := match index_byte comma_c code0 with
-            | Some com => (firstn com code0, skipn (S com) code0)
-            | None => (code0, [])
-            end in
-  let code := fst cs in
-  let secondary := snd cs in
+(* if com := strings.Index(code, ","); com > -1 { secondary = code[com+1:]; code = code[:com] } *)
+Definition split_comma (code0 : str) : str * str :=
+  match index_byte comma_c code0 with
+  | Some com => (firstn com code0, skipn (S com) code0)
+  | None => (code0, [])
+  end.
+
+(* repl, from the (lower-cased) code and secondary *)
+Definition fmt_repl_parts (code secondary : str) : str :=
   let repl1 := match lookup code fmt_colors with
                | Some col => 3 :: sprintf_02d col
                | None => []
@@ -106,6 +106,11 @@ Definition fmt_repl (raw : str) : str :=
   | [] => match lookup code fmt_codes with Some b => b | None => [] end
   | _ :: _ => repl2
   end.
+
+(* the replacement computed for text[last+1 : i] = raw *)
+Definition fmt_repl (raw : str) : str :=
+  let cs := split_comma (to_lower_ascii raw) in
+  fmt_repl_parts (fst cs) (snd cs).
 
 (* bytes that keep `last` alive: ',' A-Z a-z *)
 Definition is_tok_byte (c : N) : bool := N.eqb c comma_c || is_alpha c.
